@@ -23,6 +23,8 @@ import (
 type zvSessCfg struct {
 	Name string     `json:"name"`
 	A    zvPeerOpts `json:"-"`
+	// BRRClient: the other session (B, established throughout) is a route reflector client: it contributes the cluster ID
+	BRRClient bool `json:"-"`
 }
 
 func zvSessCfgs() []zvSessCfg {
@@ -36,6 +38,9 @@ func zvSessCfgs() []zvSessCfg {
 		// check really runs (with 3 s the keepalive timer and the poll are due at the same instants, the default schedule
 		// always serves the keepalive timer and the poll is re-armed: the expiry path would never be taken)
 		{Name: "ebgp-hold-6s", A: zvPeerOpts{Addr: 9, Hold: 6 * time.Second}},
+		// the other session is a route reflector client and contributes the cluster ID; this one is not and contributes none
+		// (a group's cluster_id reaches all its neighbours: both carry the same one)
+		{Name: "ebgp-next-to-rrclient", A: zvPeerOpts{Addr: 9, Hold: 3 * time.Second, ClusterID: zvRouterID}, BRRClient: true},
 	}
 }
 
@@ -156,7 +161,7 @@ func zvSessStart(cfg zvSessCfg) *zvSess {
 	s := &zvSess{cfg: cfg, view: map[string]string{}}
 	s.w = zvNewWorld()
 	// session B: passive iBGP session with its own local AS (so that A's ASN contribution is observable), hold time 0
-	s.oB = zvPeerOpts{Addr: 8, IBGP: true, Passive: true}
+	s.oB = zvPeerOpts{Addr: 8, IBGP: true, Passive: true, RRClient: cfg.BRRClient}
 	cb := s.w.peerConfig(s.oB)
 	cb.LocalAS, cb.PeerAS = zvLocalASB, zvLocalASB
 	if err := s.w.srv.AddPeer(cb); err != nil {
